@@ -44,6 +44,34 @@ OPTION_SETS = [
     ("v1.4-caps-minimal", {"version": V["1.4"], "caps_available": [0, 1]}),
 ]
 QUICK_SETS = 4
+
+# fixed minimal programs for defects found by this check (kept so that the known-finding keys are
+# stable and a repair is noticed); the program generator avoids these shapes
+PROBES = [
+    ("probe-restrict-uvec-coords", {"bounds_image_load": 1},
+     "@group(0) @binding(0) var t: texture_2d<f32>;\n"
+     "@fragment fn main() -> @location(0) vec4<f32> { return textureLoad(t, vec2<u32>(1u, 2u), 0); }\n"),
+    ("probe-rzsw-multisampled", {"bounds_image_load": 2},
+     "@group(0) @binding(0) var t: texture_multisampled_2d<f32>;\n"
+     "@fragment fn main() -> @location(0) vec4<f32> { return textureLoad(t, vec2<i32>(1, 2), 1); }\n"),
+    ("probe-rzsw-storage", {"bounds_image_load": 2},
+     "@group(0) @binding(0) var t: texture_storage_2d<rgba8unorm, read>;\n"
+     "@compute @workgroup_size(1) fn main() { let v = textureLoad(t, vec2<i32>(1, 2)); }\n"),
+    ("probe-abstract-shift", {},
+     "var<private> pv: i32 = 1;\n"
+     "@compute @workgroup_size(1) fn main() { var acc: i32 = (4 << 19u) + pv; pv = acc; }\n"),
+    ("probe-abstract-shift-select", {},
+     "var<private> pv: i32 = 1;\n"
+     "@compute @workgroup_size(1) fn main() { var acc = select(pv, (4 << 19u), pv == 2); pv = acc; }\n"),
+    ("probe-sint-texture-component", {},
+     "@group(0) @binding(0) var utex: texture_2d<i32>;\n"
+     "@fragment fn main() -> @location(0) vec4<f32> { let v = f32(textureLoad(utex, vec2<i32>(1, 2), 0).x); return vec4<f32>(v); }\n"),
+    ("probe-member-align-uniform", {},
+     "struct Inner { @align(16) m0: u32, m1: f32 }\n"
+     "struct U { m5: mat2x2<f32>, m6: f32, inner: Inner }\n"
+     "@group(0) @binding(0) var<uniform> ub: U;\n"
+     "@fragment fn main() -> @location(0) vec4<f32> { return vec4<f32>(ub.inner.m1 + ub.m6); }\n"),
+]
 # mutations that make every module they apply to invalid (the others may be harmless on some modules)
 MUST_CATCH = ["duplicate_type", "instr_after_terminator", "swap_entry_point_and_execution_mode", "drop_matrix_stride",
               "drop_block", "drop_binding", "drop_descriptor_set", "drop_location", "drop_builtin", "drop_shader_capability",
@@ -116,7 +144,8 @@ def compile_all(tools, programs, optsets):
 
 def validate_modules(ctx, exe, compiled, stats, found):
     """Run the extracted validator on every emitted module; collect violations by key."""
-    mods = [(n, o, opts, src, r["words"]) for (n, o, opts, src, r) in compiled if r and "words" in r]
+    # "valid program" = accepted by naga's parser, lowerer and IR validator
+    mods = [(n, o, opts, src, r["words"]) for (n, o, opts, src, r) in compiled if r and "words" in r and not r.get("validate")]
     for (n, o, opts, src, r) in compiled:
         if r is None or "crash" in r or "panic" in r:
             stats["compile_crash"] = stats.get("compile_crash", 0) + 1      # C10's business, counted only
@@ -170,7 +199,7 @@ def self_test(ctx, exe, mods, per_mutation):
 
 
 def run(ctx):
-    tools = vcheck.build_harness(["goextract", "spvdrive"])
+    tools = vcheck.build_harness(["goextract", "spvextract", "spvdrive"])
     ok, failed, log = vcheck.proof_step(
         ctx, "Props/C02.v", MODEL_FILES,
         gen_writer=lambda: gen.regenerate(tools, ["spvenums", "spvbuild"]),
@@ -201,9 +230,23 @@ def run(ctx):
         return
     exe = ocamlbuild.build("spv")
 
+    # constants of spirv.go against the specification tables (values; names are a Coq obligation)
+    rows = [[t, n, v] for t, n, v in gen.spv_consts(tools)]
+    cres = vcheck.run_model(exe, [{"consts": rows}])[0]
+    for m in cres.get("mismatches", []):
+        ctx.violation("constant %s of spirv.go is %d, the SPIR-V specification says %d" % (m["name"], m["naga"], m["spec"]),
+                      key="const:%s" % m["name"], files={"mismatch.json": json.dumps(m)},
+                      broken="spirv.go constant table vs specification (Spv/SpvTies.v const_mismatches)")
+    ctx.cov["constants_compared"] = len(rows)
+
     corpus = nagarun.corpus()
     stats = {}
     found = {}
+    pstats = {}
+    pjobs = [{"id": i, "src": p[2], "opts": p[1], "want": ["validate"]} for i, p in enumerate(PROBES)]
+    praw = nagarun.parallel_batches(tools["spvdrive"], "compile", pjobs, per_job_timeout=30.0)
+    validate_modules(ctx, exe, [(p[0], "probe", p[1], p[2], praw.get(i)) for i, p in enumerate(PROBES)], pstats, found)
+    ctx.cov["probes"] = {"programs": len(PROBES), "modules": pstats.get("modules", 0)}
     nsets = ctx.scale(QUICK_SETS, len(OPTION_SETS))
     compiled = compile_all(tools, corpus, OPTION_SETS[:nsets])
     mods = validate_modules(ctx, exe, compiled, stats, found)
